@@ -146,7 +146,11 @@ def saturate(ctx, base, schemas, extra_terms=(), rounds=ROUNDS):
     return facts, ninst
 
 
-def build_query(ctx, ob, rounds=ROUNDS):
+ROUNDS_OVERRIDE = None
+
+
+def build_query(ctx, ob, rounds=None):
+    rounds = rounds or ROUNDS_OVERRIDE or ROUNDS
     neg = z3.Not(ob.goal)
     base = list(ob.path) + [neg]
     facts, ninst = saturate(ctx, base, ob.schemas, ob.extra_terms, rounds)
